@@ -429,6 +429,10 @@ class ValueGen:
             cap = rng.choice(["cap A", "cap B"])
             op = self.op("mk.q.ucc", "units", "ObtainQuantity", [u, c, cap])
         elif form == "nonec":
+            if self.dyn_cats and rng.random() < 0.5:
+                live = [x for x, _q in self.dyn_cats if _db_now().IsValidCategory(x)]
+                if live:
+                    c = rng.choice(live)
             op = self.op("mk.q.nonec", "units", "ObtainQuantity", [None, c])
         elif form == "list1":
             op = self.op("mk.q.list1", "units", "ObtainQuantity", [{"L": [{"T": [u, 1]}]}, {"L": [c]}])
@@ -997,6 +1001,10 @@ class ValueGen:
             if b2 is None:
                 return None
             kw = {"override": True, "default_unit": rng.choice(b2[1])}
+            if not getattr(self, "plan", None):
+                # afterwards somebody asks for "the category in its default unit" again
+                nonec = self.op("mk.q.nonec", "units", "ObtainQuantity", [None, c], x=[{"o": "q_request", "p": "C07", "id": "C07.request_honoured", "form": "nonec"}])
+                self.plan = [dict(nonec, c="inspector")]
             lo, hi = rng.choice([(None, None), (0.0, None), (None, 1000.0), (-10.0, 10.0)])
             if lo is not None:
                 kw["min_value"] = lo
